@@ -10,7 +10,7 @@
    [policy_allows w dp pr n]: the pointwise policy semantics of Model/Spec.v (s_allows) from the ingress-controller
    pod (no labels, namespace ingress-controller-ns with only its automatic name label unless the input declares it). *)
 From Coq Require Import List ZArith Bool String.
-From NP Require Import IntervalSet ConnSet ConnSetProofs World Eval Spec EvalProofs Build Connlist Ingress IngressProofs.
+From NP Require Import IntervalSet ConnSet ConnSetProofs World Eval Spec EvalProofs Build Connlist Ingress IngressProofs IngressUnique.
 Import ListNotations.
 Open Scope Z_scope.
 
@@ -90,6 +90,13 @@ Theorem C10_implementation_rule_agrees_without_targetport_coincidence w ios focu
   list_world_ing false w ios focus = list_world_ing true w ios focus.
 Proof. exact (list_world_ing_agree w ios focus). Qed.
 Print Assumptions C10_implementation_rule_agrees_without_targetport_coincidence.
+
+(* at most one line and at most one warning per workload *)
+Theorem C10_one_line_per_workload strict w ios focus es ws :
+  ingress_lines w focus (ing_targets strict (workloads_of (w_pods w) []) (analyze (workloads_of (w_pods w) []) ios)) = Ok (es, ws) ->
+  NoDup (map re_dst es) /\ NoDup (map iw_peer ws).
+Proof. exact (one_ingress_line_per_workload strict w ios focus es ws). Qed.
+Print Assumptions C10_one_line_per_workload.
 
 (* non-vacuity: a Service selecting a workload through a named targetPort, an Ingress by port number, no policies *)
 Example C10_example :
